@@ -43,15 +43,15 @@ def model_check(ctx):
     """(a): TLC decides the clauses on the white-box walk. A violation is a specification-level
     counterexample: it is handed to the harness to be concretised; unreproduced => inconclusive."""
     if ctx.tier == "quick":
-        runs = [("ShuffleShardMC", "MC_walk_quick.cfg"), ("ShuffleShardMC", "MC_lookback_quick.cfg"),
-                ("PartitionShardMC", "MC_part_quick.cfg")]
+        runs = [("ShuffleShardMC", "MC_walk_quick.cfg"), ("ShuffleShardMC", "MC_unbal_quick.cfg"),
+                ("ShuffleShardMC", "MC_lookback_quick.cfg"), ("PartitionShardMC", "MC_part_quick.cfg")]
     else:
         runs = [("ShuffleShardMC", "MC_walk_thorough.cfg"), ("ShuffleShardMC", "MC_walk4_thorough.cfg"),
                 ("ShuffleShardMC", "MC_walk3_thorough.cfg"), ("ShuffleShardMC", "MC_lookback_thorough.cfg"),
                 ("ShuffleShardMC", "MC_lookback4_thorough.cfg"), ("PartitionShardMC", "MC_part_thorough.cfg"),
                 ("PartitionShardMC", "MC_part4_thorough.cfg"),
-                ("ShuffleShardMC", "MC_walk_quick.cfg"), ("ShuffleShardMC", "MC_lookback_quick.cfg"),
-                ("PartitionShardMC", "MC_part_quick.cfg")]
+                ("ShuffleShardMC", "MC_walk_quick.cfg"), ("ShuffleShardMC", "MC_unbal_quick.cfg"),
+                ("ShuffleShardMC", "MC_lookback_quick.cfg"), ("PartitionShardMC", "MC_part_quick.cfg")]
     for module, cfg in runs:
         # vacuity guard (thorough tier): the two configs in which every action can fire
         cov = ctx.tier == "thorough" and cfg in ("MC_lookback_quick.cfg", "MC_part_quick.cfg")
@@ -76,20 +76,51 @@ def concretise(ctx, r, cfg):
             cfg, r.violated, json.dumps(res.get("extra", {}))[:300]))
 
 
-def record_validate(ctx, part, corrupt=None):
+def record_validate(ctx, part, gen=None):
+    """Record histories from the real code and validate them with TLC. gen = (cases, concrete, n, holder): also
+    generate the concretised walk cases in the same `go test` invocation and evaluate them with TLC (ShardReplay)
+    in a second JVM while the trace is being validated (quick tier: saves a link step and a JVM start)."""
     trace = ctx.path("trace_%s_%d.ndjson" % (part, ctx._nrun))
     conc = trace + ".concrete"
     env = {"VERIF_TRACE": trace, "VERIF_C12_PART": "" if part == "all" else part, "VERIF_TRACE_CONCRETE": conc}
-    if corrupt:
-        env["VERIF_CORRUPT"] = corrupt
-    res = ctx.run_harness("c12", "^TestRecord$", env=env, timeout=1200)
+    pattern = "^TestRecord$"
+    if gen:
+        cases, gconc, n, holder = gen
+        holder["gen_out"] = ctx.path("gen_%d.json" % ctx._nrun)
+        env.update({"VERIF_CASES": cases, "VERIF_CONCRETE": gconc, "VERIF_NCASES": n, "VERIF_OUT_GEN": holder["gen_out"]})
+        pattern = "^(TestRecord|TestGenCases)$"
+    res = ctx.run_harness("c12", pattern, env=env, timeout=1200)
     if res.get("fatal"):
         raise verif.Inconclusive("recorder: %s" % res["fatal"])
     nev = int(res.get("extra", {}).get("c12_trace_events", 0))
     if nev == 0:
         raise verif.Inconclusive("recorder wrote no events")
-    r = ctx.tlc("shuffleshard", "ShardHistoryTrace", extra_files={trace: "trace.ndjson"}, workers=1,
-                deadlock=False, timeout=TLC_TIMEOUT, count=False)
+    th = None
+    if gen:
+        try:
+            g = json.load(open(holder["gen_out"]))
+        except Exception as ex:
+            raise verif.Inconclusive("case generator wrote no result: %s" % ex)
+        if g.get("fatal"):
+            raise verif.Inconclusive("case generator: %s" % g["fatal"])
+        import threading
+        import time
+
+        def replay_tlc():
+            try:
+                holder["tlc"] = ctx.tlc("shuffleshard", "ShardReplay", extra_files={cases: "cases.ndjson"}, workers=1,
+                                        deadlock=False, timeout=TLC_TIMEOUT, count=False)
+            except Exception as ex:          # reported by the caller
+                holder["tlc_error"] = ex
+        th = threading.Thread(target=replay_tlc)
+        th.start()
+        time.sleep(0.5)                      # let it take its run directory first
+    try:
+        r = ctx.tlc("shuffleshard", "ShardHistoryTrace", extra_files={trace: "trace.ndjson"}, workers=1,
+                    deadlock=False, timeout=TLC_TIMEOUT, count=False)
+    finally:
+        if th:
+            th.join()
     reports = verif.read_ndjson(r.out_path) if r.emitted else []
     malformed = [x for x in reports if x.get("what") == "malformed"]
     if malformed:
@@ -128,13 +159,13 @@ def sig_of(rep, f):
     return "%s:%s%s" % (rep.get("kind"), f.get("clause"), " size<=0" if q.get("size", 1) <= 0 else "")
 
 
-def validate_direction(ctx):
+def validate_direction(ctx, gen=None):
     # quick tier: small and large histories in one recording and one TLC run; thorough: two runs.
     # VERIF_C12_PARTS (development knob): "small", "large" or "small,large"
     default = "all" if ctx.tier == "quick" else "small,large"
     parts = [x for x in os.environ.get("VERIF_C12_PARTS", default).split(",") if x]
     for part in parts:
-        res, reports = record_validate(ctx, part)
+        res, reports = record_validate(ctx, part, gen=gen if part == parts[0] else None)
         if reports:
             # triage (DESIGN 1.4): re-record once with the same seed; only a repeating rejection is a violation
             res2, reports2 = record_validate(ctx, part)
@@ -155,13 +186,16 @@ def validate_direction(ctx):
                                  "recorded histories (%s)" % part)
 
 
-def replay_direction(ctx):
-    cases, conc = ctx.path("cases.ndjson"), ctx.path("concrete.ndjson")
-    n = 150 if ctx.tier == "quick" else 1500
-    res = ctx.run_harness("c12", "^TestGenCases$", env={"VERIF_CASES": cases, "VERIF_CONCRETE": conc, "VERIF_NCASES": n}, timeout=600)
-    if res.get("fatal"):
-        raise verif.Inconclusive("case generator: %s" % res["fatal"])
-    r = ctx.tlc("shuffleshard", "ShardReplay", extra_files={cases: "cases.ndjson"}, workers=1, deadlock=False, timeout=TLC_TIMEOUT, count=False)
+def replay_direction(ctx, cases, conc, n, holder=None):
+    if holder and holder.get("tlc_error"):
+        raise verif.Inconclusive("ShardReplay: %r" % (holder["tlc_error"],))
+    if holder and holder.get("tlc"):
+        r = holder["tlc"]                      # already evaluated next to the trace validation
+    else:
+        res = ctx.run_harness("c12", "^TestGenCases$", env={"VERIF_CASES": cases, "VERIF_CONCRETE": conc, "VERIF_NCASES": n}, timeout=600)
+        if res.get("fatal"):
+            raise verif.Inconclusive("case generator: %s" % res["fatal"])
+        r = ctx.tlc("shuffleshard", "ShardReplay", extra_files={cases: "cases.ndjson"}, workers=1, deadlock=False, timeout=TLC_TIMEOUT, count=False)
     ctx.require_tlc_ok(r, "ShardReplay")
     if r.emitted != n:
         raise verif.Inconclusive("ShardReplay evaluated %d of %d cases" % (r.emitted, n))
@@ -191,22 +225,53 @@ def replay_direction(ctx):
 
 
 def run(ctx):
-    ctx.rule = ("a case is one recorded history (a ring + 4-9 changes, 3-4 identifiers x all sizes 0..n+2 (small) / 10 sizes (large), plain + "
-                "look-back queries, two clients) or one concretised walk case (ring x identifier x sizes x look-back periods); non-trivial = "
-                "look-back answers strictly larger than the plain shard (history) / a shard that is a proper non-empty subset of the ring (walk case); "
-                "distinct = distinct TLC states of the exhaustive walk models")
+    ctx.rule = ("a case is one recorded history (a ring + 3-9 changes; 2-3 identifiers x every size 0..2n+zones (small zone-aware rings: every "
+                "split of n<=6 instances over <=3 zones) / 0..n+2 (other small rings) / 10 sizes (large rings); plain + look-back queries before each "
+                "change, in the very second of the change and one second later; a watching client and a second independently built client) or one "
+                "concretised walk case (ring x identifier x sizes x look-back periods); non-trivial = look-back answers strictly larger than the plain "
+                "shard (history) / a shard that is a proper non-empty subset of the ring (walk case); distinct = distinct TLC states of the exhaustive walk models")
     ctx.assumptions = ["rank compression of tokens and start values (harness/c12 startsFor)",
-                       "time convention: a change stamped t happens at t+1/2, a query with now=T at T+1/4",
+                       "time convention: a change stamped t happens at t+1/2; a query with now=T is issued at T+1/4 (late=0) or right after the change stamped T (late=1)",
                        "Consistency / LookbackSuperset only between rings with the same set of zones; instance ids are not reused",
                        "every instance / partition has at least one token"]
     ctx.exhaustive = True
     only = [x for x in os.environ.get("VERIF_C12_ONLY", "").split(",") if x]   # development knob: mc,validate,replay
-    if not only or "mc" in only:
+    if "mc" in only:
         model_check(ctx)
-    if not only or "validate" in only:
-        validate_direction(ctx)
-    if not only or "replay" in only:
-        replay_direction(ctx)
+    cases, conc = ctx.path("cases.ndjson"), ctx.path("concrete.ndjson")
+    n = 150 if ctx.tier == "quick" else 1500
+    holder = {}
+    both = not only or ("validate" in only and "replay" in only)
+
+    def code_side():
+        if not only or "validate" in only:
+            validate_direction(ctx, gen=(cases, conc, n, holder) if both and ctx.tier == "quick" else None)
+        if not only or "replay" in only:
+            replay_direction(ctx, cases, conc, n, holder)
+
+    if only:
+        code_side()
+    else:
+        # the recorder, the (single-threaded) trace validation and the replay run next to the
+        # (multi-worker) exhaustive model checking
+        import threading
+        import time
+        failed = []
+
+        def side():
+            try:
+                code_side()
+            except BaseException as ex:      # re-raised in the main thread
+                failed.append(ex)
+        th = threading.Thread(target=side)
+        th.start()
+        time.sleep(1.0)
+        try:
+            model_check(ctx)
+        finally:
+            th.join()
+        if failed:
+            raise failed[0]
     if only:
         ctx.inconclusive_note("partial run (VERIF_C12_ONLY=%s)" % ",".join(only))
     return "model_checking"
